@@ -25,8 +25,7 @@ TRUSTED = [
     "Dolev-Yao, accessory = the executable PairSetup.step that this run ties to pyhap) and as the shape of the free "
     "term algebra in C01_symbolic / C01_mitm_pairing_origin (symbolic accessory and honest controller; only the "
     "expected-proof format is tied to the executable model, C01_symbolic_format) and as NoForgeE in C01_end_to_end "
-    "(executable accessory + attacker in the middle + honest controller).  [continued: only the "
-    "expected-proof format is tied to the executable model, C01_symbolic_format).  The concrete theorems are the gate "
+    "(executable accessory + attacker in the middle + honest controller).  The concrete theorems are the gate "
     "over all histories in terms of the setup code (C01_gate_code: every O1 answers the closed-form SRP-6a proof for "
     "the code configured at the M1, every O2/O3 an M5 sealed under the key of that demonstration), the algebra of "
     "A = 0 mod N and its rejection",
